@@ -22,10 +22,10 @@ type solverSpec struct {
 
 var solvers = []solverSpec{
 	{"z3-new", "z3-new", func(t int, f string) []string { return []string{fmt.Sprintf("-T:%d", t), f} }},
-	{"z3", "z3", func(t int, f string) []string { return []string{fmt.Sprintf("-T:%d", t), f} }},
 	{"cvc5", "cvc5", func(t int, f string) []string {
 		return []string{"--strings-exp", fmt.Sprintf("--tlimit=%d", t*1000), "--produce-models", f}
 	}},
+	{"z3", "z3", func(t int, f string) []string { return []string{fmt.Sprintf("-T:%d", t), f} }},
 }
 
 type axiomText struct {
@@ -37,7 +37,7 @@ type axiomText struct {
 var symRe = regexp.MustCompile(`[A-Za-z_][A-Za-z0-9_!.$]*`)
 
 // buildQuery assembles the SMT-LIB text of one obligation.
-func (v *Verifier) buildQuery(o *Obligation, withModel bool, refute bool) string {
+func (v *Verifier) buildQuery(o *Obligation, withModel bool, refute bool, ground bool) string {
 	var sb strings.Builder
 	sb.WriteString("(set-option :produce-models true)\n(set-logic ALL)\n")
 	// lazily included closedness facts: only for heap symbols that are mentioned elsewhere
@@ -93,10 +93,17 @@ func (v *Verifier) buildQuery(o *Obligation, withModel bool, refute bool) string
 		sb.WriteString(d)
 		sb.WriteByte('\n')
 	}
+	var axTexts []string
+	groundGoal := ""
 	for i, ax := range v.axioms {
 		if used[i] {
 			if refute && v.axiomInterpreted(ax) {
 				sb.WriteString("; axiom " + ax.Name + " omitted: implied by the interpretation\n")
+				continue
+			}
+			if ground {
+				sb.WriteString("; axiom " + ax.Name + "\n")
+				axTexts = append(axTexts, ax.SMT)
 				continue
 			}
 			sb.WriteString("; axiom " + ax.Name + "\n(assert " + ax.SMT + ")\n")
@@ -106,11 +113,26 @@ func (v *Verifier) buildQuery(o *Obligation, withModel bool, refute bool) string
 		sb.WriteString(c)
 		sb.WriteByte('\n')
 	}
+	if ground {
+		all := append(axTexts, plain...)
+		skGoal, skDecls := skolemizeGoal(o.Goal)
+		for _, d := range skDecls {
+			sb.WriteString(d + "\n")
+		}
+		inst, nq, ni, newGoal := groundInstantiate(all, skGoal, 3, 600)
+		groundGoal = newGoal
+		sb.WriteString(fmt.Sprintf("; ground mode: %d quantified assumptions replaced by %d instances\n", nq, ni))
+		plain = inst
+	}
 	for _, a := range plain {
 		sb.WriteString("(assert " + a + ")\n")
 	}
 	sb.WriteString("; goal: " + o.Name + " :: " + strings.ReplaceAll(o.Clause, "\n", " ") + "\n")
-	sb.WriteString("(assert (not " + o.Goal + "))\n(check-sat)\n")
+	goalText := o.Goal
+	if groundGoal != "" {
+		goalText = groundGoal
+	}
+	sb.WriteString("(assert (not " + goalText + "))\n(check-sat)\n")
 	if withModel {
 		sb.WriteString("(get-model)\n")
 	}
@@ -219,12 +241,19 @@ func runSolver(ctx context.Context, sp solverSpec, file string, timeoutS int) so
 
 // portfolio runs the solvers on one file (staggered start) and returns the first definitive answer.
 func portfolio(file string, timeoutS int, sem chan struct{}, which []solverSpec) (best *solveResult, all []solveResult, disagreement string) {
-	ctx, cancel := context.WithCancel(context.Background())
+	return portfolioCtx(context.Background(), file, timeoutS, sem, which)
+}
+
+func portfolioCtx(parent context.Context, file string, timeoutS int, sem chan struct{}, which []solverSpec) (best *solveResult, all []solveResult, disagreement string) {
+	ctx, cancel := context.WithCancel(parent)
 	defer cancel()
 	resCh := make(chan solveResult, len(which))
 	for k, sp := range which {
 		sp := sp
-		delay := time.Duration(k) * 250 * time.Millisecond
+		delay := time.Duration(k) * 120 * time.Millisecond
+		if sp.Name == "z3" {
+			delay = 1500 * time.Millisecond // the old z3 rarely wins; give the others a head start
+		}
 		go func() {
 			select {
 			case <-time.After(delay):
@@ -232,7 +261,12 @@ func portfolio(file string, timeoutS int, sem chan struct{}, which []solverSpec)
 				resCh <- solveResult{Result: "cancelled", Solver: sp.Name}
 				return
 			}
-			sem <- struct{}{}
+			select {
+			case sem <- struct{}{}:
+			case <-ctx.Done():
+				resCh <- solveResult{Result: "cancelled", Solver: sp.Name}
+				return
+			}
 			defer func() { <-sem }()
 			if ctx.Err() != nil {
 				resCh <- solveResult{Result: "cancelled", Solver: sp.Name}
@@ -272,6 +306,8 @@ func (v *Verifier) solveAll(obls []*Obligation, workDir string, timeoutS int, jo
 		wg.Add(1)
 		go func(idx int, o *Obligation) {
 			defer wg.Done()
+			t0 := time.Now()
+			defer func() { o.Wall = time.Since(t0).Seconds() }()
 			file := filepath.Join(workDir, fmt.Sprintf("%04d_%s.smt2", idx, sanitizeFile(o.Name)))
 			o.File = file
 			to := timeoutS
@@ -282,51 +318,129 @@ func (v *Verifier) solveAll(obls []*Obligation, workDir string, timeoutS int, jo
 				to = 3
 			}
 			if !o.Known {
-				if err := os.WriteFile(file, []byte(v.buildQuery(o, true, false)), 0o644); err != nil {
+				if err := os.WriteFile(file, []byte(v.buildQuery(o, true, false, false)), 0o644); err != nil {
 					o.Result, o.Output = "error", err.Error()
 					return
 				}
-				best, all, dis := portfolio(file, to, sem, solvers)
-				if dis != "" {
-					o.Output += "\n" + dis
-					o.Disagree = true
+				gfile := strings.TrimSuffix(file, ".smt2") + ".ground.smt2"
+				gerr := os.WriteFile(gfile, []byte(v.buildQuery(o, true, false, true)), 0o644)
+				type pres struct {
+					best   *solveResult
+					all    []solveResult
+					dis    string
+					ground bool
 				}
-				if best != nil {
-					o.Result, o.Solver, o.Time = best.Result, best.Solver, best.Time
-					if best.Result == "sat" {
-						o.Model = best.Output
-					}
-				} else {
-					o.Result = "unknown"
-					var parts []string
-					for _, r := range all {
-						parts = append(parts, fmt.Sprintf("%s:%s", r.Solver, r.Result))
-						if r.Time > o.Time {
-							o.Time = r.Time
-						}
-						if r.Result == "error" {
-							o.Output += "\n" + r.Solver + ": " + firstLines(r.Output, 3)
-						}
-						if r.Result == "timeout" {
-							o.Result = "timeout"
-						}
-					}
-					o.Solver = strings.Join(parts, ",")
+				ch := make(chan pres, 2)
+				rctx, rcancel := context.WithCancel(context.Background())
+				defer rcancel()
+				go func() {
+					b, a, d := portfolioCtx(rctx, file, to, sem, solvers)
+					ch <- pres{b, a, d, false}
+				}()
+				n := 1
+				if gerr == nil && !o.Canary {
+					n = 2
+					go func() {
+						// second formulation: quantified assumptions instantiated by the generator itself and dropped
+						time.Sleep(150 * time.Millisecond)
+						b, a, d := portfolioCtx(rctx, gfile, to, sem, solvers)
+						ch <- pres{b, a, d, true}
+					}()
 				}
-				if o.Result == "unsat" || o.Canary {
+				var normal *pres
+				for k := 0; k < n; k++ {
+					r := <-ch
+					if r.dis != "" {
+						o.Output += "\n" + r.dis
+						o.Disagree = true
+					}
+					if r.best != nil && r.best.Result == "unsat" {
+						o.Result, o.Solver, o.Time = "unsat", r.best.Solver, r.best.Time
+						if r.ground {
+							o.Solver += "(ground-instantiated)"
+							o.File = gfile
+						}
+						return
+					}
+					if !r.ground {
+						rr := r
+						normal = &rr
+					}
+				}
+				if normal != nil {
+					best, all := normal.best, normal.all
+					if best != nil {
+						o.Result, o.Solver, o.Time = best.Result, best.Solver, best.Time
+						if best.Result == "sat" {
+							o.Model = best.Output
+						}
+					} else {
+						o.Result = "unknown"
+						var parts []string
+						for _, r := range all {
+							parts = append(parts, fmt.Sprintf("%s:%s", r.Solver, r.Result))
+							if r.Time > o.Time {
+								o.Time = r.Time
+							}
+							if r.Result == "error" {
+								o.Output += "\n" + r.Solver + ": " + firstLines(r.Output, 3)
+							}
+							if r.Result == "timeout" {
+								o.Result = "timeout"
+							}
+						}
+						o.Solver = strings.Join(parts, ",")
+					}
+				}
+				if o.Canary {
 					return
+				}
+				// third attempt: a conjunctive goal is proved conjunct by conjunct (in parallel)
+				if parts := splitConjuncts(o.Goal); len(parts) > 1 && len(parts) <= 12 {
+					okCh := make(chan float64, len(parts))
+					for pi, part := range parts {
+						go func(pi int, part string) {
+							po := *o
+							po.Goal = part
+							pfile := strings.TrimSuffix(file, ".smt2") + fmt.Sprintf(".part%d.smt2", pi)
+							if err := os.WriteFile(pfile, []byte(v.buildQuery(&po, true, false, true)), 0o644); err != nil {
+								okCh <- -1
+								return
+							}
+							pbest, _, _ := portfolio(pfile, to, sem, solvers)
+							if pbest == nil || pbest.Result != "unsat" {
+								okCh <- -1
+								return
+							}
+							okCh <- pbest.Time
+						}(pi, part)
+					}
+					allOK := true
+					total := 0.0
+					for range parts {
+						t := <-okCh
+						if t < 0 {
+							allOK = false
+						} else {
+							total += t
+						}
+					}
+					if allOK {
+						o.Result, o.Solver, o.Time = "unsat", fmt.Sprintf("portfolio(ground-instantiated, %d conjuncts)", len(parts)), o.Time+total
+						return
+					}
 				}
 			}
 			// refutation mode: interpreted library functions, to obtain a concrete model
 			rfile := strings.TrimSuffix(file, ".smt2") + ".refute.smt2"
-			if err := os.WriteFile(rfile, []byte(v.buildQuery(o, true, true)), 0o644); err != nil {
+			if err := os.WriteFile(rfile, []byte(v.buildQuery(o, true, true, false)), 0o644); err != nil {
 				return
 			}
 			rto := 5
-			best, _, _ := portfolio(rfile, rto, sem, []solverSpec{solvers[2], solvers[0]})
+			best, _, _ := portfolio(rfile, rto, sem, []solverSpec{solvers[1], solvers[0]})
 			if best == nil {
 				// cvc5 answers "unknown" but still prints a candidate model when quantified assumptions remain
-				r := runSolver(context.Background(), solvers[2], rfile, rto)
+				r := runSolver(context.Background(), solvers[1], rfile, rto)
 				if r.Result == "unknown" && strings.Contains(r.Output, "define-fun") {
 					o.RefuteModel = r.Output
 					o.RefuteSolver = "cvc5(candidate model, quantifiers unchecked)"
